@@ -33,7 +33,8 @@ tvars == <<vars, l, nk, nexec, agg>>
 AllFlags == {"shadow", "sibling", "emptymap", "shadowmap", "deep", "reattach", "foreign", "foreign_xthread",
              "empty_tok", "ooo", "dup", "dup_ooo", "ooo_deep", "ooo_deep2", "nested_scope", "scope_ooo",
              "scope_restores_span", "scope_exit_destroys", "drop_child_first", "drop_leaf_of_chain", "drop_parent_first",
-             "drop_middle", "drop_attached", "unwind_to_small", "regrow", "ooo_after_regrow"}
+             "drop_middle", "drop_attached", "unwind_to_small", "regrow", "ooo_after_regrow", "clear_key", "clear_span_key",
+             "clear_key_map"}
 Merge(a, fl) == [f \in AllFlags |-> a[f] + IF f \in fl THEN 1 ELSE 0]
 
 Ev == TraceLog[l]
